@@ -108,6 +108,9 @@ def replay(tid, beh, rng):
             with warnings.catch_warnings(), contextlib.redirect_stdout(io.StringIO()):
                 warnings.simplefilter("ignore")
                 if h["act"] == "setp":
+                    # the sample grows between rounds - in place, in the caller's own list object
+                    if step > 1 and (step + len(conf)) % 2 == 0:
+                        mvrs.append(CVR(id=f"m{len(mvrs)}", votes={c: {"A": 1} for c in contests}))
                     hists = []
                     for (c, n, a, val), ps in zip(asns, h["ps"]):
                         # the history a test returns need not have the returned p-value as its minimum or last
